@@ -410,7 +410,9 @@ func (s *State) failAssert(id string, neg *Term, msg string) {
 		ob.add(Unsat, true)
 		return
 	}
+	s.confirmModels = true
 	r, model := s.solve(s.modelVars(), neg)
+	s.confirmModels = false
 	ob.add(r, false)
 	switch r {
 	case Sat:
